@@ -212,4 +212,4 @@ Definition count_static (cs : list case) : N := N.of_nat (length (filter in_stat
 (* sanity channel: a case in the static class whose args/returns do not satisfy the outlining hypotheses
    would contradict the theorem *)
 Definition static_contradictions (cs : list case) : N :=
-  N.of_nat (length (filter (fun c => in_static_domain c && negb (N.eqb (diag_with as_is c) 0)) cs)).
+  N.of_nat (length (filter (fun c => in_static_domain c && negb (N.eqb (diag_with current c) 0)) cs)).
